@@ -364,6 +364,19 @@ func runC18(ctx *Ctx) {
 					}
 				}
 			}
+			// model-free monitor: the agent connects to every host the pool returned
+			askedPeers := false
+			for _, c := range poolCalls {
+				askedPeers = askedPeers || strings.HasPrefix(c, "peer ")
+			}
+			if askedPeers && rd.PeerMode == "ok" && rd.ConnFail < 0 && err == nil {
+				for _, u := range rd.PeerURIs {
+					if !containsStr(nodeCalls, "connect "+u) {
+						mon = append(mon, fmt.Sprintf("c18-returned-host-not-connected: the pool answered the agent's peer request (%v) with %d hosts but the agent did not connect to %s", poolCalls, len(rd.PeerURIs), u))
+						break
+					}
+				}
+			}
 			if (rd.NodeErr || rd.UpdErr) && len(nodeCalls) > 0 {
 				mon = append(mon, fmt.Sprintf("c18-failed-round-had-effect: the keep-alive failed but the node received %v", nodeCalls))
 			}
